@@ -18,9 +18,9 @@ use std::collections::BTreeSet;
 pub const SPEC: PropSpec = PropSpec {
     id: "C05",
     level: "exploration",
-    rule: "Cases = (well-formed document over prefixes {default, p, q, xsi, undeclared zz}, URIs {u1, u2, empty, the XSI URI}, names {a, b}, nesting <= 5, with declarations, re-declarations, xmlns=\"\", xmlns:p=\"\", shadowing, same prefix on siblings, declarations on empty elements; consumer history: per call read_event or read_resolved_event, after each Start optionally skip (read_to_end / read_to_end_into / read_to_end_into_async) or read_text; source slice / buffered piece 1 or random / async; expand_empty_elements on/off). After every Start, Empty and End event and after every skip the monitor compares with the scope model R_ns: the ResolveResult returned by read_resolved_event, resolve_element(name), resolve_attribute(key) for every attribute of the event, a fixed probe set (each pool prefix, unprefixed as element and as attribute, xml:, xmlns:, an undeclared prefix), the SET yielded by prefixes(), and Attributes::has_nil. Exhaustive: all documents of a 4-element skeleton pool x all skip/text choices (3^k) x 3 read-kind patterns; random documents and histories beyond. Separately: attempts to rebind xml / xmlns or to bind another prefix to their URIs must return the documented NamespaceError and leave the bindings unchanged. Non-trivial = the history contains at least one skip or read_text, or the document a re-declaration / un-declaration.",
+    rule: "Cases = (well-formed document over prefixes {default, p, q, xsi, undeclared zz}, URIs {u1, u2, empty, the XSI URI}, names {a, b}, nesting <= 5, with declarations, re-declarations, xmlns=\"\", xmlns:p=\"\", shadowing, same prefix on siblings, declarations on empty elements; consumer history: per call read_event or read_resolved_event, after each Start optionally skip (read_to_end / read_to_end_into / read_to_end_into_async) or read_text, and after any child event optionally skip the rest of the enclosing element; source slice / buffered piece 1 or random / async; expand_empty_elements on/off). After every Start, Empty and End event and after every skip the monitor compares with the scope model R_ns: the ResolveResult returned by read_resolved_event, resolve_element(name), resolve_attribute(key) for every attribute of the event, a fixed probe set (each pool prefix, unprefixed as element and as attribute, xml:, xmlns:, an undeclared prefix), the SET yielded by prefixes(), and Attributes::has_nil. Exhaustive: all documents of a 4-element skeleton pool x all skip/text choices (3^k) x 3 read-kind patterns; random documents and histories beyond. Separately: attempts to rebind xml / xmlns or to bind another prefix to their URIs must return the documented NamespaceError and leave the bindings unchanged. Non-trivial = the history contains at least one skip or read_text, or the document a re-declaration / un-declaration.",
     assumptions: &["R_tok and R_attr are used as tools to get the token stream and the attribute lists", "namespace names are the raw attribute values (quick-xml documents that they are not normalised)"],
-    required: &["probes.Bound", "probes.Unbound", "probes.Unknown", "skips", "skip_then_resolve_sibling", "read_texts", "scopes_pushed", "undeclarations_seen", "shadowing_seen", "has_nil.true", "has_nil.false", "namespace_errors_checked", "source.slice", "source.buffered", "source.async", "prefix_sets_compared"],
+    required: &["probes.Bound", "probes.Unbound", "probes.Unknown", "skips", "skips_mid_element", "skip_then_resolve_sibling", "read_texts", "scopes_pushed", "undeclarations_seen", "shadowing_seen", "has_nil.true", "has_nil.false", "namespace_errors_checked", "source.slice", "source.buffered", "source.async", "prefix_sets_compared"],
     run,
     replay,
     thorough_layers: &[],
@@ -52,6 +52,7 @@ pub struct Local {
     unbound: u64,
     unknown: u64,
     skips: u64,
+    mid_skips: u64,
     skip_sibling: u64,
     texts: u64,
     pushed: u64,
@@ -274,6 +275,9 @@ const PROBES: [&[u8]; 8] = [b"x", b"p:x", b"q:x", b"xsi:nil", b"xml:lang", b"xml
 pub struct History {
     /// bit i: call i uses read_resolved_event
     pub resolved_bits: u64,
+    /// bit i: after call i (if it returned a child event inside an open element) the rest of the
+    /// enclosing element is skipped with read_to_end
+    pub mid_bits: u64,
     /// action after the k-th Start event: 0 continue, 1 skip, 2 read_text (skip where unavailable)
     pub actions: Vec<u8>,
 }
@@ -329,6 +333,7 @@ fn check_with<R: NsRd>(mut r: R, input: &[u8], expand: bool, hist: &History, loc
     let mut call = 0u32;
     let mut start_no = 0usize;
     let mut after_skip = false;
+    let mut open: Vec<Vec<u8>> = Vec::new();
     while ti < toks.len() {
         let resolved = hist.resolved_bits >> (call % 64) & 1 == 1;
         call += 1;
@@ -361,6 +366,8 @@ fn check_with<R: NsRd>(mut r: R, input: &[u8], expand: bool, hist: &History, loc
                 loc.pushed += 1;
                 if kind == Kind::Empty {
                     m.pending = true;
+                } else {
+                    open.push(name.clone());
                 }
                 let what = format!("after {} (call {})", want.show(), call - 1);
                 if after_skip {
@@ -442,6 +449,7 @@ fn check_with<R: NsRd>(mut r: R, input: &[u8], expand: bool, hist: &History, loc
                         ti = e + 1;
                         m.frames.pop();
                         m.pending = false;
+                        open.pop();
                         after_skip = true;
                         compare_scope(&r, &m, &format!("after skipping <{}> (started at call {})", show(&name), call - 1), loc)?;
                     }
@@ -449,6 +457,7 @@ fn check_with<R: NsRd>(mut r: R, input: &[u8], expand: bool, hist: &History, loc
             }
             Kind::End => {
                 m.pending = true;
+                open.pop();
                 let what = format!("after {} (call {})", want.show(), call - 1);
                 if let Some(res) = res {
                     let w = m.resolve(&name, false);
@@ -467,6 +476,40 @@ fn check_with<R: NsRd>(mut r: R, input: &[u8], expand: bool, hist: &History, loc
                         return Err(format!("call {}: read_resolved_event returned {:?} for a non-element event", call - 1, res));
                     }
                 }
+            }
+        }
+        // skip the rest of the enclosing element after a child event (not directly after its Start)
+        if kind != Kind::Start && hist.mid_bits >> ((call - 1) % 64) & 1 == 1 {
+            if let Some(x) = open.last().cloned() {
+                let mut depth = 0;
+                let mut e = ti;
+                loop {
+                    match toks.get(e) {
+                        None => return Err("generator produced an unbalanced document".into()),
+                        Some(Obs::Ev(Kind::Start, _, _)) => depth += 1,
+                        Some(Obs::Ev(Kind::End, _, _)) => {
+                            if depth == 0 {
+                                break;
+                            }
+                            depth -= 1;
+                        }
+                        _ => {}
+                    }
+                    e += 1;
+                }
+                loc.mid_skips += 1;
+                if !r.skip(&x)? {
+                    return Err(format!("read_to_end({:?}) in the middle of the element (after call {}) failed on a well-formed document", show(&x), call - 1));
+                }
+                ti = e + 1;
+                if m.pending {
+                    m.frames.pop();
+                    m.pending = false;
+                }
+                m.frames.pop();
+                open.pop();
+                after_skip = true;
+                compare_scope(&r, &m, &format!("after skipping the rest of <{}> following a child event (call {})", show(&x), call - 1), loc)?;
             }
         }
     }
@@ -588,16 +631,16 @@ const POOL: &[&str] = &[
 ];
 
 fn case_json(input: &[u8], expand: bool, kind: SrcKind, cuts: &[usize], hist: &History) -> Value {
-    json!({"input": super::common::input_json(input), "expand": expand, "source": format!("{:?}", kind), "cuts": cuts, "resolved_bits": hist.resolved_bits, "actions": hist.actions})
+    json!({"input": super::common::input_json(input), "expand": expand, "source": format!("{:?}", kind), "cuts": cuts, "resolved_bits": hist.resolved_bits, "mid_bits": hist.mid_bits, "actions": hist.actions})
 }
 
 fn run_case(ctx: &mut Ctx, loc: &mut Local, input: &[u8], expand: bool, kind: SrcKind, cuts: &[usize], hist: &History) -> bool {
     ctx.journal(|| case_json(input, expand, kind, cuts, hist));
-    let mut h = H::new().bytes(input).u64(expand as u64).u64(kind as u64).u64(hist.resolved_bits);
+    let mut h = H::new().bytes(input).u64(expand as u64).u64(kind as u64).u64(hist.resolved_bits).u64(hist.mid_bits);
     for a in &hist.actions {
         h = h.u64(*a as u64);
     }
-    let nontrivial = hist.actions.iter().any(|a| *a != 0) || crate::refmodel::tok::find_sub(input, b"=''").is_some() || crate::refmodel::tok::find_sub(input, b"=\"\"").is_some();
+    let nontrivial = hist.actions.iter().any(|a| *a != 0) || hist.mid_bits != 0 || crate::refmodel::tok::find_sub(input, b"=''").is_some() || crate::refmodel::tok::find_sub(input, b"=\"\"").is_some();
     ctx.eval(h.finish(), nontrivial);
     let res = guarded(|| check(input, expand, kind, cuts, hist, loc));
     let res = match res {
@@ -627,8 +670,14 @@ fn all_histories(ctx: &mut Ctx, loc: &mut Local, doc: &[u8], r: &mut Rng) -> boo
                 actions.push((x % 3) as u8);
                 x /= 3;
             }
-            for bits in [0u64, u64::MAX, 0xAAAA_AAAA_AAAA_AAAA] {
-                let hist = History { resolved_bits: bits, actions: actions.clone() };
+            for (bi, bits) in [0u64, u64::MAX, 0xAAAA_AAAA_AAAA_AAAA].into_iter().enumerate() {
+                // mid-element skips: none, after one particular call, or a random pattern
+                let mid_bits = match (code + bi) % 3 {
+                    0 => 0,
+                    1 => 1u64 << (r.below(12) as u64),
+                    _ => r.next() & r.next(),
+                };
+                let hist = History { resolved_bits: bits, mid_bits, actions: actions.clone() };
                 let kind = match code.wrapping_add(bits as usize) % 5 {
                     0 => SrcKind::Buffered,
                     1 => SrcKind::Async,
@@ -706,6 +755,7 @@ fn run(ctx: &mut Ctx) {
         let k = count_starts(d.as_bytes(), expand);
         let hist = History {
             resolved_bits: r.next(),
+            mid_bits: if r.bool() { 0 } else { r.next() & r.next() & r.next() },
             actions: (0..k).map(|_| if r.chance(1, 3) { 1 + r.below(2) as u8 } else { 0 }).collect(),
         };
         let kind = *r.pick(&[SrcKind::Slice, SrcKind::Slice, SrcKind::Buffered, SrcKind::Async]);
@@ -727,6 +777,7 @@ fn flush(ctx: &mut Ctx, loc: &Local) {
     ctx.add("probes.Unbound", loc.unbound);
     ctx.add("probes.Unknown", loc.unknown);
     ctx.add("skips", loc.skips);
+    ctx.add("skips_mid_element", loc.mid_skips);
     ctx.add("skip_then_resolve_sibling", loc.skip_sibling);
     ctx.add("read_texts", loc.texts);
     ctx.add("scopes_pushed", loc.pushed);
@@ -756,6 +807,7 @@ fn replay(case: &Value, ctx: &mut Ctx) -> Option<String> {
     let cuts: Vec<usize> = case["cuts"].as_array().map(|a| a.iter().map(|x| x.as_u64().unwrap_or(0) as usize).collect()).unwrap_or_default();
     let hist = History {
         resolved_bits: case["resolved_bits"].as_u64().unwrap_or(0),
+        mid_bits: case["mid_bits"].as_u64().unwrap_or(0),
         actions: case["actions"].as_array().map(|a| a.iter().map(|x| x.as_u64().unwrap_or(0) as u8).collect()).unwrap_or_default(),
     };
     let mut loc = Local::default();
